@@ -2,7 +2,7 @@
    inverse_table is regenerated from /repo by symbolic evaluation of inverse_gate. *)
 From Coq Require Import ZArith List Bool Reals Lia Lra.
 From QP Require Import Cx Apply Gates Rsem.
-From QPM Require Import Transpile Inverse.
+From QPM Require Import Transpile Inverse Pauli PauliRot PauliRotInv.
 From QPG Require Import invtab.
 Import ListNotations.
 
@@ -72,6 +72,13 @@ Theorem folding_gate_count :
   forall (A : Type) (inv : A -> A) m (circ : list A),
   length (fold_with inv m [] circ) = (length circ * (1 + 2 * m))%nat.
 Proof. intros. apply folding_length_uniform. Qed.
+
+(* inverse_gate(PauliRotation(targets, ids, angle)) = PauliRotation(targets, ids, -angle): the rotation about a Pauli string
+   of any length by the opposite angle undoes it exactly *)
+Theorem pauli_rotation_inverse_undoes :
+  forall theta l psi, NoDup (keys l) -> prot (- theta) l (prot theta l psi) = psi.
+Proof. intros. apply prot_inverse. assumption. Qed.
+Print Assumptions pauli_rotation_inverse_undoes.
 
 Example c12_nonvacuous :
   Forall cgate_ok [mkC KRX [2]%nat [1%R]; mkC KCNOT [0; 1]%nat []; mkC KT [1]%nat []] /\
